@@ -262,6 +262,7 @@ def to_str(I, v):
             i = V.vi(t)
             return SV(V.VStr(z3.If(i >= 0, z3.IntToStr(i), z3.Concat(V.S("-"), z3.IntToStr(-i)))))
         _used("str(x) of a value of unknown kind: uninterpreted text py_str(x)")
+        I.p.imprecise = True          # over-approximation, see str.join
         return SV(V.VStr(PY_STR(t)))
     if isinstance(v, (MList, MDict)):
         return SV(V.VStr(PY_STR(lower(v))))
@@ -476,6 +477,8 @@ def _seq_term(I, it, lineno=None, what="iteration"):
     if isinstance(it, SV) and is_set_term(I, it.t):
         order_obligation(I, what, lineno)
         return V.set_elems(it.t)
+    if isinstance(it, MDict):
+        raise Unsupported(f"{what} over a symbolic dict (its keys)")
     if isinstance(it, (MList, V.DDEntry)):
         it = SV(it.t)
     if isinstance(it, SV):
@@ -486,6 +489,13 @@ def _seq_term(I, it, lineno=None, what="iteration"):
             return V.vl(t)
         if entailed(I, V.is_VTuple(t)):
             return V.vt(t)
+        if entailed(I, V.is_VDict(t)) or isinstance(it, MDict):
+            # iterating a symbolic dict (its keys) is not modelled: the function is outside the subset, not at fault
+            raise Unsupported(f"{what} over a symbolic dict (its keys)")
+        if not entailed(I, z3.Or(V.is_VList(t), V.is_VTuple(t), V.is_VStr(t), V.is_VNone(t), V.is_VInt(t), V.is_VBool(t), V.is_VFloat(t))):
+            # the kind of the value is not known to the engine (e.g. the result of an unmodelled construct)
+            if not I.p.feasible(z3.Or(V.is_VList(t), V.is_VTuple(t))):
+                raise Unsupported(f"{what} over a value that is never a list or tuple in the engine's encoding")
         I.p.oblige("no-raise@iter", z3.Or(V.is_VList(t), V.is_VTuple(t)), "no-raise", detail="TypeError: not iterable")
         return z3.If(V.is_VList(t), V.vl(t), V.vt(t))
     return None
@@ -1351,6 +1361,9 @@ def _str_join(I, s, args, kwargs):
         return concat_strs(I, parts)
     if isinstance(items, (SV, MList)):
         _used("str.join over a symbolic sequence: uninterpreted text py_join(sep, items)")
+        # an over-approximation (nothing is known about the text): what is proved with it holds for the real join, but a
+        # counter-model built on it is no witness - failing obligations on this path need a confirming replay
+        I.p.imprecise = True
         return SV(V.VStr(PY_JOIN(V.S(s), lower(items))))
     raise Unsupported("str.join over a symbolic sequence")
 
